@@ -218,16 +218,16 @@ SPEC = {
                       _vec(3, [(0, 1)], skip_sinks=True)]},
         {'name': 'scc4', 'fn': 'scc', 'params': p4, 'call': c4,
          # thorough only: all 2^16 graphs on 4 nodes x trivial x node kind, sliced by the first row + flags
-         'bounds': {'thorough': 'not rev and not unknown_edge'},
-         'slices': {'thorough': [s + ' and ' + t for s in _flag_slices(['trivial', 'objs', 'skip_sinks'])
+         'bounds': {'thorough': 'not rev and not unknown_edge and not skip_sinks and (trivial or not objs)'},
+         'slices': {'thorough': [s + ' and ' + t for s in ('trivial and objs', 'trivial and not objs', 'not trivial and not objs')
                                  for t in _flag_slices(['a0', 'a1', 'a2', 'a3'])]},
          'timeout': {'thorough': 1500},
          'fidelity': [_vec(4, e) for n, e in repo_graphs() if n == 4]},
         {'name': 'scc4keyed', 'fn': 'scck', 'params': _PK, 'call': _CK,
          # quick: every 4-node graph with exactly 5 edges (the smallest graphs with a cycle through three nodes plus a detour)
-         'bounds': {'quick': 'ks == 3 and trivial and %s == 5' % _SUMK, 'thorough': '0 <= ks < %d and 4 <= %s <= 7' % (len(KEYSETS), _SUMK)},
+         'bounds': {'quick': 'ks == 3 and trivial and %s == 5' % _SUMK, 'thorough': '0 <= ks < 4 and trivial and 5 <= %s <= 6' % _SUMK},
          'slices': {'quick': ['%s and %s and %s' % (r, b, c) for r in ('rev', 'not rev') for b in ('nrev', 'not nrev') for c in _flag_slices(['b0', 'b1'])],
-                    'thorough': ['ks == %d and %s and %s and %s' % (k, r, t, b) for k in range(len(KEYSETS)) for r in ('rev', 'not rev') for t in ('trivial', 'not trivial')
+                    'thorough': ['ks == %d and %s and %s and %s' % (k, r, t, b) for k in range(4) for r in ('rev', 'not rev') for t in ('nrev', 'not nrev')
                                  for b in _flag_slices(['b0', 'b1'])]},
          'timeout': {'quick': 300, 'thorough': 1700},
          'fidelity': [_vk([(0, 1), (1, 2), (2, 0), (2, 3), (3, 1)]), _vk([(0, 1), (1, 0), (2, 3), (3, 2), (2, 1)], ks=3, rev=False, trivial=False)]},
